@@ -2,7 +2,7 @@
 (***************************************************************************)
 (* The task diagram shows every reachable type and relationship (C20).     *)
 (*                                                                         *)
-(* Tasks are the tag-first nodes of TaskValues with two fields (f1, f2).   *)
+(* Tasks are the tag-first nodes of TaskTrees with two fields (f1, f2).    *)
 (* PROPERTY LEVEL: for a list of tasks,                                    *)
 (*   Reach      all tasks reachable through parameters at any depth        *)
 (*   ExpTypes   their types                                                *)
@@ -17,7 +17,7 @@
 (* state of the traversal equals the property level for every input of the *)
 (* bounded grammar, and emits the inputs with the expected sets.           *)
 (***************************************************************************)
-EXTENDS TaskValues
+EXTENDS TaskTrees
 
 DT == {"d.D1", "d.D2", "d.D3"}
 One == N("int", "1", <<>>)
@@ -66,9 +66,22 @@ Tops == {N("task", ty, <<v, w>>) : ty \in DT, v \in UNION {Vals2(m) : m \in Mids
 Inputs == {<<t>> : t \in Mids \cup Tops} \cup {<<a, b>> : a, b \in MidsSmall} \cup {<<>>}
           \cup {<<a, b>> : a \in {t \in Tops : Kids(t)[2] = One /\ Atom(t) = "d.D1"}, b \in Leafs}
 
-P_TraversalMatches == \A inp \in Inputs :
-                        LET res == BuildResult(inp) IN res.done /\ res.types = ExpTypes(inp) /\ ResRels(res) = ExpRels(inp)
-ASSUME P_TraversalMatches
+(* As a state machine: one initial state per input; Pop is one iteration of the loop of TaskStructure.build. *)
+VARIABLES din, dq, dty, drl
+dvars == <<din, dq, dty, drl>>
+DInit == din \in Inputs /\ dq = din /\ dty = {} /\ drl = [x \in {} |-> FALSE]
+Pop == /\ dq # <<>>
+       /\ LET t == Head(dq) IN
+            /\ dq' = Tail(dq) \o TasksIn(Kids(t)[1]) \o TasksIn(Kids(t)[2])
+            /\ dty' = dty \cup {Atom(t)}
+            /\ drl' = AddRels(AddRels(drl, FieldRels(t, 1)), FieldRels(t, 2))
+       /\ UNCHANGED din
+DSpec == DInit /\ [][Pop]_dvars /\ WF_dvars(Pop)
+I_TerminalMatches == dq = <<>> => (dty = ExpTypes(din) /\ {<<k[1], k[2], k[3], drl[k]>> : k \in DOMAIN drl} = ExpRels(din))
+I_NeverTooMuch == dty \subseteq ExpTypes(din) /\ \A k \in DOMAIN drl : \E r \in ExpRels(din) : r[1] = k[1] /\ r[2] = k[2] /\ r[3] = k[3]
+Terminates == <>(dq = <<>>)
+DummySpec == DInit /\ [][UNCHANGED dvars]_dvars
+DummyInv == TRUE
 ASSUME PrintT(<<"inputs", Cardinality(Inputs)>>)
 
 EmitInputs(x) == \A inp \in Inputs : x >= 0 /\
